@@ -211,3 +211,92 @@ Proof.
     pose proof (padToWord_facts _ H1). lia.
   - lia.
 Qed.
+
+(* ------------------------------------------------------------------ the copy, with the potential *)
+Definition A_wp (f : nat) : Prop := forall w dsid off src fc,
+  dok (w_dst w) -> msg_ok (w_src w) -> 0 <= w_src_rl w -> region_ok (w_dst w) dsid off 8 ->
+  wf_ptr (w_src w) src -> shape_ok src ->
+  rpostk w (wcost src + 32 * slots src) (write_ptr f true w dsid off InSrc src fc).
+Definition A_cs (f : nat) : Prop := forall w dst src,
+  dok (w_dst w) -> msg_ok (w_src w) -> 0 <= w_src_rl w -> dst_ok (w_dst w) dst ->
+  wf_struct (w_src w) src ->
+  rpostk w (32 * (if p_valid src then PointerCount (p_size src) else 0)) (copy_struct f true w dst InSrc src).
+
+Lemma Phi_set_dst w m' : Phi (w_set_dst w m') = tot m' + 5 * w_src_rl w.
+Proof. reflexivity. Qed.
+
+Lemma acs_step f : A_wp f -> A_cs (S f).
+Proof.
+  intros IH w dst src Hd Hm Hr Hdst Hs. pose proof Hdst as (Vd & Zd & Rd). rewrite copy_struct_S. cbv zeta.
+  rewrite Vd. cbn [negb]. destruct (p_valid src) eqn:Vs; cbn [negb].
+  2:{ cbn [rpostk]. split; [apply wgood_refl; assumption|lia]. }
+  cbn [w_segs]. change (nth (Z.to_nat (p_seg src)) (w_src w) []) with (seg_of (w_src w) src).
+  destruct (src_data_slice _ src Hm Hs Vs) as [-> Ls]. cbn [bind].
+  rewrite nth_bm_data. unfold wf_size in Zd.
+  assert (region_ok (w_dst w) (p_seg dst) (p_off dst) (DataSize (p_size dst))) as Rdd
+    by (destruct Rd as (R1 & R2 & R3); unfold region_ok; lia).
+  destruct (dst_slice (w_dst w) (p_seg dst) (p_off dst) (DataSize (p_size dst)) Hd Rdd ltac:(lia)) as [-> Ld].
+  cbn [bind].
+  set (sd := sub (seg_of (w_src w) src) (p_off src) (DataSize (p_size src))) in *.
+  set (dd := sub (mem (w_dst w) (p_seg dst)) (p_off dst) (DataSize (p_size dst))) in *.
+  set (bs := firstn (Nat.min (length sd) (length dd)) sd ++ repeat 0 (length dd - Nat.min (length sd) (length dd))).
+  assert (zlen bs = DataSize (p_size dst)) as Lb.
+  { unfold bs, zlen in *. rewrite app_length, firstn_length, repeat_length. lia. }
+  assert (region_ok (w_dst w) (p_seg dst) (p_off dst) (zlen bs)) as Rbs by (rewrite Lb; exact Rdd).
+  destruct (seg_write_safe (w_dst w) (p_seg dst) (p_off dst) bs Hd Rbs) as (m1 & E1 & D1 & N1 & L1 & _).
+  pose proof (seg_write_tot _ _ _ _ _ Hd Rbs E1) as T1. rewrite E1. cbn [lift0 bind].
+  assert (wgood w (w_set_dst w m1)) as G1 by (apply wgood_set_dst; auto; apply same_len_grows; auto).
+  destruct (wf_struct_inv _ src Hs Vs) as (Hsg & Hz & Ho & He). unfold wf_size in Hz.
+  (* the common pointers: 32 each *)
+  pose proof (fold_res_postk (wgood w) Phi 32
+    (fun wa j =>
+       let '(r, rl') := readPtr true (w_segs wa InSrc) (w_rl wa InSrc) (p_seg src)
+                                (nth (Z.to_nat (p_seg src)) (w_segs wa InSrc) []) (pointerAddress src j) (p_depth src) in
+       do q <- r; write_ptr f true (w_set_rl wa InSrc rl') (p_seg dst) (pointerAddress dst j) InSrc q true)
+    (iota (Z.to_nat (Z.min (PointerCount (p_size src)) (PointerCount (p_size dst))))) (w_set_dst w m1)) as F1.
+  match type of F1 with ?A -> ?B -> ?C => assert A as HA end.
+  { intros j wa Hj (Da & Ga & Sa & Ra). apply in_iota in Hj. cbn [w_segs w_rl]. rewrite Sa.
+    change (nth (Z.to_nat (p_seg src)) (w_src w) []) with (seg_of (w_src w) src).
+    pose proof (pointerAddress_spec _ src j Hm Hs Vs ltac:(lia)) as PA.
+    pose proof (readPtr_safe true (w_src w) (w_src_rl wa) (p_seg src) (seg_of (w_src w) src) (pointerAddress src j)
+                  (p_depth src) Hm (seg_of_is_seg _ src Hsg) ltac:(lia) ltac:(lia)) as RS.
+    pose proof (readPtr_charge true (w_src w) (w_src_rl wa) (p_seg src) (seg_of (w_src w) src) (pointerAddress src j)
+                  (p_depth src) ltac:(lia)) as [RC RX].
+    pose proof (readPtr_shape true (w_src w) (w_src_rl wa) (p_seg src) (seg_of (w_src w) src) (pointerAddress src j)
+                  (p_depth src)) as RH.
+    destruct (readPtr true (w_src w) (w_src_rl wa) (p_seg src) (seg_of (w_src w) src) (pointerAddress src j) (p_depth src))
+      as [r rl']. cbn [fst snd] in *.
+    destruct r as [q| |]; cbn [bind res_sat] in *; [|exact I|exact RS].
+    assert (wgood w (w_set_rl wa InSrc rl')) as Gb.
+    { split; [exact Da|]. split; [exact Ga|]. split; [exact Sa|]. cbn. lia. }
+    pose proof (RS eq_refl) as Wq.
+    pose proof (IH (w_set_rl wa InSrc rl') (p_seg dst) (pointerAddress dst j) q true) as C.
+    cbn [w_set_rl w_dst w_src w_src_rl] in C.
+    specialize (C Da ltac:(rewrite Sa; exact Hm) ltac:(lia)
+                  ltac:(eapply region_grows; [exact Ga|]; apply dst_ptr_slot; auto; lia)
+                  ltac:(rewrite Sa; exact Wq) (RH q eq_refl)).
+    destruct (write_ptr f true _ (p_seg dst) (pointerAddress dst j) InSrc q true) as [w'| |];
+      cbn [rpostk] in *; [|exact I|exact C].
+    destruct C as [Gc Pc]. split; [eapply wgood_trans; eassumption|].
+    pose proof (wcost_le _ q Hm Wq (RH q eq_refl)) as Wc.
+    pose proof (slots_le_readSize _ q Hm Wq) as [Sl0 Sl].
+    unfold Phi in *. cbn [w_set_rl w_dst w_src_rl] in Pc. lia. }
+  specialize (F1 HA G1). clear HA.
+  destruct (fold_res _ _ _) as [w2| |]; cbn [bind]; [|exact I|exact F1].
+  destruct F1 as [G2 P2]. rewrite zlen_iota in P2.
+  pose proof (fold_res_postk (wgood w) Phi 0
+    (fun wa j => lift0 wa (writeRawPointer (w_dst wa) (p_seg dst) (pointerAddress dst j) 0))
+    (map (fun k => PointerCount (p_size src) + k)
+         (iota (Z.to_nat (PointerCount (p_size dst) - PointerCount (p_size src))))) w2) as F2.
+  match type of F2 with ?A -> ?B -> ?C => assert A as HA end.
+  { intros j wa Hj (Da & Ga & Sa & Ra). apply in_map_iff in Hj. destruct Hj as (k & <- & Hk). apply in_iota in Hk.
+    pose proof (lift0_write_k wa (p_seg dst) (pointerAddress dst (PointerCount (p_size src) + k)) 0 Da ltac:(lia)
+                  ltac:(eapply region_grows; [exact Ga|]; apply dst_ptr_slot; auto; lia)) as W.
+    destruct (lift0 wa _) as [w'| |]; cbn [rpostk] in *; [|exact I|exact W].
+    destruct W as [Gw Pw]. split; [|lia].
+    eapply wgood_trans; [split; [exact Da|split; [exact Ga|split; [exact Sa|exact Ra]]]|exact Gw]. }
+  specialize (F2 HA G2). clear HA.
+  destruct (fold_res _ _ _) as [w3| |]; cbn [rpostk]; [|exact I|exact F2].
+  destruct F2 as [G3 P3]. split; [exact G3|].
+  rewrite Phi_set_dst in P2. unfold Phi at 2. rewrite <- T1. nia.
+Qed.
